@@ -397,7 +397,7 @@ theorem HookChange.new_bucket (h : HookChange m user fresh top m') {k : Nat × N
 
 /-! ### sums over the tables -/
 
-theorem asum_ainsert_new {κ ν : Type} [DecidableEq κ] (f : ν → Nat) {k : κ} (v : ν)
+theorem asum_ainsert_newF {κ ν : Type} [DecidableEq κ] (f : ν → Nat) {k : κ} (v : ν)
     {l : List (κ × ν)} (h : alookup k l = none) : asum f (ainsert k v l) = f v + asum f l := by
   rw [asum_ainsert, al_aerase_absent h]
 
@@ -423,7 +423,7 @@ theorem HookChange.sums (hI : IdsInv m) (h : HookChange m user fresh top m')
     subst hm
     refine ⟨?_, rfl⟩
     dsimp only
-    rw [asum_ainsert_new f _ (hI.alookup_none_of_findById hnew user), hf0]; omega
+    rw [asum_ainsert_newF f _ (hI.alookup_none_of_findById hnew user), hf0]; omega
   | ledit id l nf hl _ _ htop hm =>
     subst hm
     exact ⟨asum_ainsert_same f hI.lkeys hl (hf l nf htop), rfl⟩
@@ -431,7 +431,7 @@ theorem HookChange.sums (hI : IdsInv m) (h : HookChange m user fresh top m')
     subst hm
     refine ⟨rfl, ?_⟩
     dsimp only
-    rw [asum_ainsert_new g _ hnew, hg0]; omega
+    rw [asum_ainsert_newF g _ hnew, hg0]; omega
   | bedit id b nf hb htop hm =>
     subst hm
     exact ⟨rfl, asum_ainsert_same g hI.bkeys hb (hg b nf htop)⟩
@@ -457,7 +457,7 @@ theorem HookChange.sums_delta (hI : IdsInv m) (h : HookChange m user fresh top m
   | lcreate id wl ask hnew _ hm =>
     subst hm
     dsimp only
-    rw [asum_ainsert_new f _ (hI.alookup_none_of_findById hnew user), hf0]; omega
+    rw [asum_ainsert_newF f _ (hI.alookup_none_of_findById hnew user), hf0]; omega
   | ledit id l nf hl _ _ htop hm =>
     subst hm
     dsimp only
@@ -465,7 +465,7 @@ theorem HookChange.sums_delta (hI : IdsInv m) (h : HookChange m user fresh top m
   | bcreate id hnew _ hm =>
     subst hm
     dsimp only
-    rw [asum_ainsert_new g _ hnew, hg0]; omega
+    rw [asum_ainsert_newF g _ hnew, hg0]; omega
   | bedit id b nf hb htop hm =>
     subst hm
     dsimp only
